@@ -447,6 +447,10 @@ def _run_loop_body(it, c, vals):
     module = inspect.getmodule(f)
     genv = module.__dict__ if module else {}
     env = E.Env(dict(vals), None, genv)
+    # helper functions defined inside the enclosing function (before the loop) are part of the unit's text
+    for st in ast.walk(E.func_ast(f)):
+        if isinstance(st, ast.FunctionDef) and st is not E.func_ast(f) and st.lineno < loop.lineno and env.vars.get(st.name) is None:
+            it.s_FunctionDef(st, env)
     outcome, returned = "normal", None
     try:
         it.exec_block(loop.body, env)
@@ -489,7 +493,13 @@ def loop_native(c, args):
         # locals().update does not create fast locals: bind the state names by explicit assignments instead
         names = sorted(c.args)
         fn = src.body[0]
+        helpers = [_copy.deepcopy(st) for st in ast.walk(E.func_ast(f)) if isinstance(st, ast.FunctionDef) and st is not E.func_ast(f) and st.lineno < loop.lineno]
         fn.body = ast.parse("__o = None").body + [ast.parse(f"{n} = __state[{n!r}]").body[0] for n in names]
+        for h in helpers:
+            # a helper defined in the enclosing function: (re)defined here unless the state supplies a callable of that name
+            guard = ast.parse(f"if not callable(__state.get({h.name!r})):\n    pass").body[0]
+            guard.body = [h]
+            fn.body.append(guard)
         once = ast.parse("for __once in (0,):\n    pass\nelse:\n    if __o is None:\n        __o = 'continue'").body[0]
         once.body = body + ast.parse("__o = 'normal'").body
         fn.body.append(once)
